@@ -421,6 +421,8 @@ func (l *lockedBuilder) String() string {
 
 var kInitCommand []string // InitCommand for the next kBuildContainer (C16 scenario)
 
+var kSymLinks []container.SymbolicLink // SymbolicLinks for the next kBuildContainer (C13: a configured link inside a writable mount)
+
 // kBuildContainer builds a container with the probe's directory bind-mounted read-only at /probe.
 func kBuildContainer(extraMounts func(b *mount.Builder), cred container.CredGenerator, stderr io.Writer) (*kContainer, error) {
 	root, err := os.MkdirTemp(kDir, "croot")
@@ -437,7 +439,7 @@ func kBuildContainer(extraMounts func(b *mount.Builder), cred container.CredGene
 	if extraMounts != nil {
 		extraMounts(mb)
 	}
-	b := container.Builder{Root: root, Mounts: mb.FilterNotExist().Mounts, Stderr: stderr, CredGenerator: cred, InitCommand: kInitCommand}
+	b := container.Builder{Root: root, Mounts: mb.FilterNotExist().Mounts, Stderr: stderr, CredGenerator: cred, InitCommand: kInitCommand, SymbolicLinks: kSymLinks}
 	env, err := kBuildRetry(&b)
 	if err != nil {
 		os.Remove(root)
